@@ -57,6 +57,10 @@ def groups_for(ctx):
     extra = [('A' * 64, 'all'), (G.rand_text(rng, 64, 'mixed'), 'all'),
              (G.rand_text(rng, 200, 'astral'), 24), (G.rand_text(rng, 4096, 'mixed') + 'z' * 64, 16),
              ('p' * 4000 + '\U0001F600' * 30, 16), (G.rand_text(rng, 40, 'mixed'), 'all'),
+             # text that is NOT in a Unicode normalisation form (base letter + combining mark, singletons such as OHM / ANGSTROM
+             # SIGN, conjoining jamo, marks in non-canonical order, compatibility ligatures): the payload is the caller's code
+             # points as they are, and verify returns exactly them
+             ('e\u0301 \u2126\u212b', 'all'), ('\u1100\u1161 a\u0307\u0323 \ufb01 \u00c5A\u030a', 24), ('\u0041\u030a\u0301x\u0344', 24),
              (G.rand_text(rng, 600, 'mixed'), 24), (G.rand_text(rng, 24, 'ascii'), 'all'), ('€' * 21, 'all')]
     n_more = ctx.n(0, 575)
     for _ in range(n_more):
@@ -156,6 +160,14 @@ def variants_of(g, signed, rng):
     for pl in (payload, other_payload):
         add('tamper', 'attacker-signed-victim-address', mk_sm(p2, uhdr, pl, G.ref_sign(A, G.sig_structure(p2, pl))),
             G.cose_key(A['vk']) if attach else None)
+    # both key-carrying modes in ONE message: the attacker signs and attaches his own COSE key, the protected header names
+    # the victim's address AND carries the victim's public key as key id (sign() never emits this mix)
+    p3 = cenc(Pairs([(1, -8), (T(b'address'), k_addr), (4, K['vk'])]))
+    for pl in (payload, other_payload):
+        add('tamper', 'attacker-key-attached-victim-kid', mk_sm(p3, uhdr, pl, G.ref_sign(A, G.sig_structure(p3, pl))), G.cose_key(A['vk']))
+    # the other way round: the victim's key attached, the header's key id and signature are the attacker's
+    p4 = cenc(Pairs([(1, -8), (T(b'address'), k_addr), (4, A['vk'])]))
+    add('tamper', 'victim-key-attached-attacker-kid', mk_sm(p4, uhdr, other_payload, G.ref_sign(A, G.sig_structure(p4, other_payload))), G.cose_key(K['vk']))
     # victim's header and key, attacker's signature over another payload
     add('tamper', 'attacker-sig-victim-key', mk_sm(prot, uhdr, other_payload, G.ref_sign(A, G.sig_structure(prot, other_payload))))
     # the same credential presented as the other kind of address, not re-signed
